@@ -1065,6 +1065,8 @@ def sym_str(x="", *a):
 
 
 def sym_float(x=0.0):
+    if hasattr(x, "__symfloat__"):
+        return x.__symfloat__()
     if isinstance(x, (SymInt, Rat)):
         raise Unsupported("float() of symbolic value")
     return float(x)
